@@ -115,8 +115,8 @@ TReq ==
 TResp ==
   /\ Line("resp") /\ owed = Nil
   /\ \E f \in BOOLEAN : \/ (E.kind = "gic" /\ S!PollResp(E.name, f))
-                         \/ (E.kind = "get" /\ (S!InitResp(E.name, f) \/ S!LookupResp(E.name, f)))
-  /\ (IF out'.ev = "lookupend" THEN out'.res = E.res ELSE out'.ev = "resp" /\ out'.res = E.res) /\ out'.ver = E.ver
+                         \/ (E.kind = "get" /\ (S!InitResp(E.name, f) \/ S!LookupResp(E.name, f) \/ (~f /\ S!InitStray(E.name))))
+  /\ (IF out'.ev = "lookupend" THEN out'.res = E.res ELSE out'.ev = "resp" /\ (out'.res = E.res \/ out'.res = "stray")) /\ (out'.ver = E.ver \/ out'.res = "stray")
   /\ Owes /\ Adv
 
 TCacheW ==
@@ -124,6 +124,14 @@ TCacheW ==
   /\ E.ok = owed.ok
   /\ (owed.ok => DocOf(E.doc) = owed.doc)
   /\ owed' = Nil /\ Adv /\ UNCHANGED <<svars, rets>>
+
+\* a cache write nobody owes: allowed at any moment, as one complete document of the store's state at that moment
+TCacheWExtra ==
+  /\ Line("cachew") /\ owed = Nil
+  /\ S!ExtraFlush
+  /\ E.ok = ~cache.wfail
+  /\ (E.ok => DocOf(E.doc) = cache'.doc)
+  /\ Adv /\ UNCHANGED <<rets, owed>>
 
 \* (the poller's own Refresh result is only logged by the store, so its line carries res "any")
 TRet ==
@@ -176,7 +184,7 @@ Init ==
   /\ l = 1 /\ rets = {} /\ owed = Nil /\ rd = [r \in ReaderSet |-> Nil]
 
 Main == TNewStore \/ TSvc \/ TSvcMode \/ TTime \/ TAdv \/ TRefresh \/ TTick \/ THandle \/ TRead \/ TLookup \/ TCancel \/ TClose
-        \/ TCacheFault \/ TReq \/ TResp \/ TCacheW \/ TRet \/ Silent \/ TEnd
+        \/ TCacheFault \/ TReq \/ TResp \/ TCacheW \/ TCacheWExtra \/ TRet \/ Silent \/ TEnd
 Next == (Main /\ UNCHANGED rd) \/ TRBegin \/ SRead \/ TREnd \/ TReset
 
 (* --- the specification's properties, evaluated on every state of every accepted history ------------------------ *)
